@@ -29,6 +29,11 @@ func init() { register("C02", checkC02) }
 //	   $.p = v, $file = v) and selectors select the same subtree twice or one
 //	   inside the other; the model re-binds $ per rule (BEGIN, END) and per
 //	   round, $file per JSON value, so that no write may outlive them.
+//	   A command line may name the same path several times (paths[f] is the
+//	   path of the f-th file argument; families "inputs" and "sim"): the model
+//	   has one file per argument, each processed in full in its place.  Every
+//	   such configuration also goes through the compiled binary, with the
+//	   path on disk once and on the command line as often as the model says.
 //	B  larger seeded random configurations are run with the hooks on; the
 //	   recorded events are validated by TLC against JqDriver's actions
 //	   (Trace_Driver.tla), acceptance by POSTCONDITION.
@@ -45,6 +50,7 @@ type c02Cfg struct {
 	Rules [][]string    `json:"rules"` // [kind, pat, body, write] (write absent = "none")
 	NSel  int           `json:"nsel"`
 	Sels  []int         `json:"sels"`  // per selector the key it picks, 1-based (0: the whole value); absent = 1..nsel
+	Paths []int         `json:"paths"` // per file argument the path it names, numbered by first occurrence; absent = all distinct
 	Files [][][]c02Root `json:"files"` // [file][value][selector]
 	// [rule, dollar type, f, v, s, e, $index, $file, $ open, $file cell (0 names the file, r > 0 written by rule r, -1 open),
 	//  overlay of $: tag (0 none, 1 member p written, 2 whole cell written), rule; then per element of an array root: tag, rule]
@@ -254,7 +260,19 @@ func c02Render(cfg *c02Cfg, seed int64, names func(i int) string) *c02Mat {
 			bfAssigns = true
 		}
 	}
+	firstArg := map[int]int{} // path -> the first file argument that names it
 	for f, file := range cfg.Files {
+		name := names(f)
+		if len(cfg.Paths) == len(cfg.Files) {
+			name = names(cfg.Paths[f] - 1)
+			if g, ok := firstArg[cfg.Paths[f]]; ok {
+				// the same path once more: the same name, the same bytes
+				m.Vals = append(m.Vals, m.Vals[g])
+				m.Files = append(m.Files, FileIn{Name: m.Files[g].Name, Data: append([]byte{}, m.Files[g].Data...)})
+				continue
+			}
+			firstArg[cfg.Paths[f]] = f
+		}
 		var data bytes.Buffer
 		var fvals [][]any
 		for _, val := range file {
@@ -326,7 +344,7 @@ func c02Render(cfg *c02Cfg, seed int64, names func(i int) string) *c02Mat {
 			data.WriteString(" \n")
 		}
 		m.Vals = append(m.Vals, fvals)
-		m.Files = append(m.Files, FileIn{Name: names(f), Data: append([]byte{}, data.Bytes()...)})
+		m.Files = append(m.Files, FileIn{Name: name, Data: append([]byte{}, data.Bytes()...)})
 	}
 	if bfAssigns {
 		m.AllArrays = false
@@ -584,7 +602,7 @@ type c02Tag struct {
 
 var c02Invariants = []string{"TypeOK", "PartitionLaw", "Ordered", "BeginFirst", "EndLast", "EndDollarNull", "Bindings",
 	"SourceOrderWithinElement", "BodyIffPattern", "NextSkipsRestOfElementOnly", "ExitAbsorbing", "ElementMultiplicity",
-	"DenoteLaw", "ShapeLaw"}
+	"DenoteLaw", "ShapeLaw", "PathLaw", "OccurrenceLaw"}
 
 // the laws about re-binding; checked where bodies write (without writes they hold trivially)
 var c02CellInvariants = []string{"FreshBindings", "WritesLast"}
@@ -631,6 +649,7 @@ func checkC02(c *Ctx) {
 	c.Assume("printed values are scalars, arrays and objects with at most one key (multi-key objects print in map order: C10); the print format of these is taken from the documented format (C17 owns it)")
 	c.Assume("a rule without a body cannot be written directly before a pattern rule without a pattern (the grammar reads it as that rule's body) nor before a pattern beginning with `!` (read as an operator); such rule lists are outside the domain")
 	c.Assume("selectors are member accesses $.key over an object holding the chosen roots")
+	c.Assume("a path named by several file arguments: all of them are the same string (other spellings of one file are distinct paths here); the file does not change during the run")
 	c.Assume("data-driven patterns are `$` (truthiness of the element, DESIGN.md 3.1) and `$.p`, written `$ is object && $.p` when some element is not an object (member access on non-objects is not part of this property)")
 	pool := c.Pool()
 
@@ -667,8 +686,10 @@ func checkC02(c *Ctx) {
 		if nA%20000 == 7 {
 			c.Sample(map[string]any{"family": tag.Fam, "program": string(j.Prog), "selectors": j.Sels, "files": c02FilesRep(j.Files), "expected_stdout": tag.Exp})
 		}
-		// a sample also through the compiled binary: files on disk, -r
-		if nA%binEvery == 3 {
+		// a sample also through the compiled binary: files on disk, -r; every configuration that names a path
+		// more than once (that is a matter of the command line: the library gets one reader per argument)
+		repeated := c02Repeats(tag.Cfg)
+		if nA%binEvery == 3 || repeated {
 			nBin++
 			dir := filepath.Join(binDir, strconv.Itoa(nBin))
 			os.MkdirAll(dir, 0o755)
@@ -691,6 +712,9 @@ func checkC02(c *Ctx) {
 					c.Violation("schedule-binary", rep)
 				}
 				c.Count("binary_runs", 1)
+				if repeated {
+					c.Count("binary_runs_with_a_path_named_twice", 1)
+				}
 			}
 			os.RemoveAll(dir)
 		}
@@ -729,13 +753,14 @@ func checkC02(c *Ctx) {
 			{fam: "rules", alpha: "full", maxRules: 3, sel: big, nsel: "{0}"},
 			{fam: "rules", alpha: "core", maxRules: 4, sel: "{6}", nsel: "{0}"},
 			{fam: "inputs", alpha: "full", maxFiles: 2, maxVals: 1, sel: "{}", nsel: "{0, 1, 2}"},
+			{fam: "inputs", alpha: "full", maxFiles: 3, maxVals: 1, sel: "{}", nsel: "{0}"},
 			{fam: "sim", alpha: "full", maxRules: 6, maxFiles: 3, maxVals: 3, maxArr: 3, sel: "{}", nsel: "{0, 1, 2}", sim: 200},
 			{fam: "cells", alpha: "cells", maxRules: 2, sel: all, nsel: "{0}"},
 			{fam: "sim", alpha: "cells", maxRules: 6, maxFiles: 3, maxVals: 3, maxArr: 3, sel: "{}", nsel: "{0, 1, 2}", sim: 100},
 		}
 		bounds["cells"] = "all lists <= 2 of writing rules (31 symbols: $ = v, $.p = v, $file = v after the print) x 6 fixed inputs (several values per file; selectors selecting the same subtree twice, a subtree and the whole value); 8 x 100 random behaviours with writing rules and such selector lists"
 		bounds["rules"] = "all rule lists <= 2 over the 30-symbol alphabet x 6 fixed inputs, <= 3 x fixed input " + big + ", <= 4 over the 8-symbol core alphabet x input 6"
-		bounds["inputs"] = "files <= 2, values per file <= 1, nsel 0..2, 6 root shapes x 6 fixed rule lists"
+		bounds["inputs"] = "file arguments <= 2, values per file <= 1, nsel 0..2, and file arguments <= 3 with nsel 0; every argument names a new path or one given before (a a, a b a, a a b, a b b, a a a); 6 root shapes x 6 fixed rule lists"
 		bounds["sim"] = "8 x 200 random behaviours: rules <= 6, files <= 3, values <= 3, array length <= 3, nsel <= 2"
 	} else {
 		runs = []c02Run{
@@ -744,6 +769,7 @@ func checkC02(c *Ctx) {
 			{fam: "rules", alpha: "core", maxRules: 4, sel: "{1, 2, 3}", nsel: "{0}"},
 			{fam: "inputs", alpha: "full", maxFiles: 2, maxVals: 2, sel: "{}", nsel: "{0, 1}"},
 			{fam: "inputs", alpha: "full", maxFiles: 2, maxVals: 1, sel: "{}", nsel: "{2}"},
+			{fam: "inputs", alpha: "full", maxFiles: 3, maxVals: 1, sel: "{}", nsel: "{0, 1}"},
 			{fam: "sim", alpha: "full", maxRules: 6, maxFiles: 3, maxVals: 3, maxArr: 3, sel: "{}", nsel: "{0, 1, 2}", sim: 4000},
 			{fam: "cells", alpha: "cells", maxRules: 2, sel: all, nsel: "{0}"},
 			{fam: "cells", alpha: "cells", maxRules: 3, sel: "{3}", nsel: "{0}"},
@@ -751,7 +777,7 @@ func checkC02(c *Ctx) {
 		}
 		bounds["cells"] = "all lists <= 2 of writing rules (31 symbols: $ = v, $.p = v, $file = v after the print) x 6 fixed inputs (several values per file; selectors selecting the same subtree twice, a subtree and the whole value), <= 3 x input 3; 8 x 2000 random behaviours with writing rules and such selector lists"
 		bounds["rules"] = "all rule lists <= 3 over the 30-symbol alphabet x 6 fixed inputs; <= 5 over the 8-symbol core alphabet x input 6, <= 4 x inputs 1..3"
-		bounds["inputs"] = "files <= 2, values per file <= 2 (nsel 0, 1) / <= 1 (nsel 2), 6 root shapes x 6 fixed rule lists"
+		bounds["inputs"] = "file arguments <= 2, values per file <= 2 (nsel 0, 1) / <= 1 (nsel 2), and file arguments <= 3 with one value and nsel 0, 1; every argument names a new path or one given before; 6 root shapes x 6 fixed rule lists"
 		bounds["sim"] = "8 x 4000 random behaviours: rules <= 6, files <= 3, values <= 3, array length <= 3, nsel <= 2"
 	}
 	parts := os.Getenv("C02_PARTS") // development switch: "A" or "B" alone; default both
@@ -809,6 +835,18 @@ func checkC02(c *Ctx) {
 		"non-trivial when the expected stdout is non-empty; distinct by (program, selectors, input bytes). "+
 		"B: one case per recorded run accepted by Trace_Driver; non-trivial when it has at least one hook event")
 	c.Set("checker_cmd", "tlc MC_Driver (BFS families rules / inputs, -simulate family sim) -> lang.EvalProgram stdout; tlc Trace_Driver -workers 1 (DFS queue) on recorded hook events")
+}
+
+// c02Repeats tells whether some path is named by more than one file argument.
+func c02Repeats(cfg *c02Cfg) bool {
+	seen := map[int]bool{}
+	for _, p := range cfg.Paths {
+		if seen[p] {
+			return true
+		}
+		seen[p] = true
+	}
+	return false
 }
 
 func c02NValues(cfg *c02Cfg) int {
